@@ -431,7 +431,10 @@ def check_phase_sets(rep, rule, rule_pair=None, rule_order=None, rule_core_env=N
     """Abstract interpretation of make_middleware_chain.  The three (function list, provides list) pairs are found
     by evaluation: a comprehension over the middleware list that selects ``(mw.<slot>, mw.<slot provides>)`` pairs (or
     one of the two) is a phase value; ``zip(*sigs)``, ``list(..)``, ``.. or ((), ())``, tuple unpacking, aliases and
-    an ``if not sigs: <empty lists> else: <unzip>`` split carry it to the make_chain call that consumes it."""
+    an ``if not sigs: <empty lists> else: <unzip>`` split carry it to the make_chain call that consumes it.  A phase is
+    identified by the role of what the make_chain call is given (which slot its function list was read from), never by the
+    names of the locals: temporaries re-used from phase to phase are followed flow-sensitively, and so are the locals a
+    comprehension reads its attribute names from (``getattr(mw, provides_attr)``, ``attrgetter(..)``)."""
     repo = rep.repo
     core = repo.mod(CORE)
     fi = core.func('make_middleware_chain')
